@@ -514,6 +514,56 @@ func checkLockRelease(p *load.Program, r *kit.Report, rule string) {
 				}
 			}
 		}
+		// the same along single paths: the must-hold sets above are merged at joins, so a lock
+		// that only one arm leaves held (an early `return` turned `break` by an expanded helper, the
+		// unlock on the other arm) is not held "on every path" at the return behind the join. From
+		// each acquisition the flow engine (which keeps flags and result temporaries apart) must not
+		// reach a return without passing an unlock of that lock.
+		if bad == "" {
+			var acquires []ssa.Instruction
+			acqKey := map[ssa.Instruction]string{}
+			unlocks := map[string][]ssa.Instruction{}
+			kit.AllInstrs(f, func(in ssa.Instruction) {
+				c, ok := in.(ssa.CallInstruction)
+				if !ok {
+					return
+				}
+				if _, isDefer := in.(*ssa.Defer); isDefer {
+					return
+				}
+				if _, isGo := in.(*ssa.Go); isGo {
+					return
+				}
+				key, mode, op := kit.LockOp(lin, c)
+				if op > 0 && owned(taken[key+":"+mode]) && !entry[key+":"+mode] {
+					acquires = append(acquires, in)
+					acqKey[in] = key + ":" + mode
+				} else if op < 0 {
+					unlocks[key+":"+mode] = append(unlocks[key+":"+mode], in)
+				}
+			})
+			for _, a := range acquires {
+				km := acqKey[a]
+				i := strings.LastIndex(km, ":")
+				key, mode := km[:i], km[i+1:]
+				rr := kit.Reach(f, kit.After(a), kit.Opts{StopAt: kit.InstrSet(unlocks[km]...)})
+				for _, ret := range kit.Returns(f) {
+					if !rr.Has(ret) {
+						continue
+					}
+					covered := false
+					for _, d := range defers {
+						if d.key == key && d.mode == mode && d.b.Dominates(ret.Block()) {
+							covered = true
+						}
+					}
+					if !covered {
+						at = ret
+						bad = name + " can return (" + retLabel(ret) + ", path " + rr.PathTo(ret, p.Pos) + ") with " + key + " still held: no unlock on that path and no deferred unlock covers the return; the next caller that needs the lock blocks for ever, and with it everything that waits for that caller"
+					}
+				}
+			}
+		}
 		n++
 		r.Check(bad == "", rule, k.key(name+"/returns-unlocked"), posOf(p, at), "every return releases what the function locked", bad)
 	}
